@@ -575,6 +575,7 @@ class Registry:
         self.ghost_env = {}
         self.transparent = set()
         self.missing = []
+        self.abstractions = {}     # spec function -> (when(interp), make(interp, args, kwargs))
 
     # ----- registration ---------------------------------------------------------
     def add_contract(self, c):
@@ -867,6 +868,14 @@ class Module:
 
     def model(self, f, m):
         self.models[f] = m
+
+    def abstract(self, f, when, make):
+        """Abstraction barrier for a spec function: where `when(interp)` holds, a call of f is answered by
+        `make(interp, args, kwargs)` (typically an application of an uninterpreted function to the arguments)
+        instead of interpreting its definition; elsewhere f is an ordinary spec function."""
+        if not hasattr(self, 'abstractions'):
+            self.abstractions = {}
+        self.abstractions[f] = (when, make)
 
     def check(self, name):
         def deco(fn):
